@@ -285,6 +285,19 @@ def rule_e(ctx, cr):
                   "the prefix letter is accepted in either case",
                   "the radix branch requires the prefix letter in both cases at once %s: it is "
                   "never taken and &H.. replies are read as octal or as text" % cj)
+    # at most ONE type decorator is taken off the end (12%% is not a number)
+    multi = f.calls_matching(r"<impl str>::trim_(end_|start_)?matches$") + \
+        f.calls_matching(r"<impl str>::trim_right_matches$")
+    loops = set()
+    for comp in f.sccs():
+        loops |= set(comp)
+    looped = [c for c in f.calls_matching(r"(String::pop|<impl str>::strip_suffix|String::truncate)$")
+              if c.bb in loops]
+    ctx.check(not multi and not looped, "C17.e", "Val::from/one-decorator", f.span,
+              "the decorator removal takes one character, once",
+              "Val::from removes any number of trailing ! # %% characters (%s): a reply such as "
+              "12%%%% is accepted as a number instead of REDO FROM START"
+              % sorted({c.name.rsplit("::", 1)[1] for c in multi + looped}))
     sp = f.calls_matching(r"<impl str>::strip_prefix$")
     rep = f.calls_matching(r"<impl str>::replace$")
     ctx.check(len(sp) == 1 and all(f.dominates(sp[0].bb, c.bb) for c in rep), "C17.e",
